@@ -201,6 +201,11 @@ void Search::go()
     }
     iter_search();
 
+    // if the search was stopped (or ran out of time) before the first iteration
+    // completed there is no best move yet: answer with the first root move
+    if (_best_move == NO_MOVE && !_root_moves.empty())
+        _best_move = _root_moves.front();
+
     ASSERT(_best_move != NO_MOVE);
 #ifdef CHESSPP_VERIF
     verif::at(verif::BEFORE_BESTMOVE, this);
